@@ -40,7 +40,7 @@ def _origin_only(w):
     """Several fields that all consist of the single origin sample: lentil reserves that extent for
     merged constants (field._merge_shape), a degenerate 1x1 optic excluded from the domain."""
     fs = [f for f in w.data if f.data.ndim == 2 and f.data.size > 0]
-    return len(fs) > 1 and all(rm.coordset(f.data.shape, f.offset) == {(0, 0)} for f in fs)
+    return len(fs) > 1 and all(f.data.shape == (1, 1) and tuple(int(x) for x in f.offset) == (0, 0) for f in fs)
 
 
 def _as2(shape):
@@ -159,16 +159,15 @@ def multiply_oracle(ctx, args, kwargs, result, exc, pre):
               'field after the plane is not field*amplitude*exp(2 pi i opd/wavelength) inside the mask and 0 outside',
               wit, scale=scale)
     # nothing may land outside the plane's array
-    region = rm.coordset(S, (0, 0))
     stray = 0
-    for f in result.data:
-        if f.data.ndim == 2 and f.data.size > 0:
-            cs = rm.coordset(f.data.shape, f.offset)
-            if not cs <= region:
-                r0, c0 = rm.Canvas.field_coords(f.data.shape, f.offset)
-                for (r, c) in cs - region:
-                    if f.data[r - r0, c - c0] != 0:
-                        stray += 1
+    reg = rm.bbox_of([(S, (0, 0))])
+    fl = [(f.data, f.offset) for f in result.data if f.data.ndim == 2 and f.data.size > 0]
+    if fl:
+        bb = rm.bbox_of([(d.shape, o) for d, o in fl] + [(S, (0, 0))])
+        if bb != reg:
+            full = np.abs(rm.dense([(np.abs(d), o) for d, o in fl], bb))
+            inside = rm.dense([(np.ones(S), (0, 0))], bb).real > 0
+            stray = int(np.count_nonzero(full[~inside]))
     ctx.check(stray == 0, 'multiply=phasor', 'multiply|outside-plane', 'non-zero field outside the plane array', wit)
 
 
@@ -301,8 +300,8 @@ def _touch_views(ctx, lentil, rng, w):
     nf = len([f for f in w.data if f.data.size > 0])
     if nf > 1:
         ctx.bucket('wf:multi-field')
-        sets = [rm.coordset(f.data.shape, f.offset) for f in w.data if f.data.ndim == 2 and f.data.size > 0]
-        if any(sets[i] & sets[j] for i in range(len(sets)) for j in range(i + 1, len(sets))):
+        fl = [(np.ones(f.data.shape), f.offset) for f in w.data if f.data.ndim == 2 and f.data.size > 0]
+        if fl and rm.dense(fl, rm.bbox_of([(d.shape, o) for d, o in fl])).real.max() > 1:
             ctx.bucket('wf:overlapping-fields')
     try:
         w.field
